@@ -91,6 +91,12 @@ def chains():
     out.append([["delete", "h"], ["rename", "a", "h"]])
     out.append([["delete", "d/b"], ["rename", "a", "d/b"]])
     out.append([["rename", "h", "k"], ["rename", "a", "h"]])
+    # a synced file is moved into (out of) a folder and the folder is renamed straight afterwards: the child's pending move
+    # must survive the re-basing of the folder's children (SyncState._update_kids)
+    out.append([["rename", "a", "d/a"], ["rename", "d", "dx"]])
+    out.append([["rename", "h", "e/f/h"], ["rename", "e", "m"]])
+    out.append([["rename", "d/b", "b"], ["rename", "d", "dx"]])
+    out.append([["rename", "e/f/g", "d/g"], ["rename", "d", "dx"]])
     return out
 
 
